@@ -571,7 +571,7 @@ def run(ctx):
         d = os.path.join(ctx.scratch, "evict")
         os.makedirs(d, exist_ok=True)
         sp, op = os.path.join(d, "scen.json"), os.path.join(d, "ops.ndjson")
-        p = ctx.run([binp, "gen", "-seed", str(ctx.seed * 1000 + 999), "-ntx", "30", "-traces", "3", "-ops", "260", "-bulky", "132",
+        p = ctx.run([binp, "gen", "-seed", str(ctx.seed * 1000 + 999), "-ntx", "30", "-traces", "3", "-ops", "0", "-bulky", "132",
                      "-scenario", sp, "-opsout", op], timeout=600)
         if p.returncode != 0:
             raise Infra("mempool gen failed: " + p.stderr[-2000:])
@@ -579,7 +579,9 @@ def run(ctx):
         tv, evs, _ = drive_and_validate(ctx, tp, binp, open(sp).read(), [json.loads(l) for l in open(op)], "evict", 3, evict=True, bulk=95000, stats=est)
         traces_validated += tv
         events_validated += evs
-        ctx.cov["eviction_tier"] = {"max_pool": est.get("max_pool"), "events": evs}
+        ctx.cov["eviction_tier"] = {"max_pool": est.get("max_pool"), "events": evs, "submissions_that_shrank_the_pool": est.get("replacements", 0)}
+        if not est.get("replacements"):
+            raise Infra("eviction tier: the size limit never fired")
         ctx.log("eviction tier: %d traces, %d events, largest pool %s transactions" % (tv, evs, est.get("max_pool")))
 
         # a chain of 110 unconfirmed transactions and double spends that replace more than 100 of them at once
